@@ -49,7 +49,15 @@ fn blocked_family(r: &mut Rng, n: usize) -> Model {
 }
 
 pub fn check(d: &AdjacencyMap, m: &Model, o: &mut CaseOut) -> usize {
-    let got: Vec<Vec<usize>> = Johnson75::new(d).circuits();
+    let mut j = Johnson75::new(d);
+    let got: Vec<Vec<usize>> = j.circuits();
+    if m.n() <= 40 {
+        let mut cl = j.clone();
+        let again = j.circuits();
+        o.check(again == got, "circuits-differ-on-second-call", || crate::ctx::clip(&format!("first {got:?} second {again:?}")));
+        let cloned = cl.circuits();
+        o.check(cloned == got, "circuits-differ-on-a-clone", || crate::ctx::clip(&format!("first {got:?} clone {cloned:?}")));
+    }
     let want = m.circuits();
     let set: BTreeSet<Vec<usize>> = got.iter().cloned().collect();
     o.check(set.len() == got.len(), "circuit-returned-twice", || format!("{got:?}"));
